@@ -9,11 +9,22 @@ fn norm(v: [f64; 3]) -> [f64; 3] { let l = (v[0]*v[0]+v[1]*v[1]+v[2]*v[2]).sqrt(
 fn cross(a: [f64; 3], b: [f64; 3]) -> [f64; 3] { [a[1]*b[2]-a[2]*b[1], a[2]*b[0]-a[0]*b[2], a[0]*b[1]-a[1]*b[0]] }
 
 impl Frame {
-    /// kind 0: coordinate plane, 1: oblique, 2: right-angle rotation through the crate's own Transform (1e-16 noise)
+    /// kind 0: coordinate plane, 1: oblique, 2: right-angle rotation through the crate's own Transform (1e-16 noise),
+    /// 3: exactly diagonal plane (two normal components tie exactly, the third is zero; not orthonormal: |e1| = 1.06)
     pub fn random(r: &mut Rng, max_offset: f64) -> Frame {
-        let kind = match r.below(10) { 0..=3 => 0u8, 4..=7 => 1, _ => 2 };
+        let kind = match r.below(12) { 0..=3 => 0u8, 4..=7 => 1, 8..=9 => 2, _ => 3 };
         let o = if r.chance(0.3) { [0.0; 3] } else { [r.range(-max_offset, max_offset), r.range(-max_offset, max_offset), r.range(-max_offset, max_offset)] };
         match kind {
+            3 => {
+                // exactly diagonal plane (x = +-y + c and the like): two components of the normal tie EXACTLY in magnitude, the
+                // third is zero; coordinates stay exactly representable (e1 = 0.75 * (1, +-1, 0), tied offsets equal)
+                let i = r.below(3) as usize; let j = (i + 1) % 3; let k = (i + 2) % 3;
+                let s = if r.chance(0.5) { 0.75 } else { -0.75 };
+                let mut e1 = [0.0; 3]; e1[i] = 0.75; e1[j] = s;
+                let mut e2 = [0.0; 3]; e2[k] = if r.chance(0.5) { 1.0 } else { -1.0 };
+                let mut o2 = o; o2[j] = o2[i] * if s > 0.0 { 1.0 } else { -1.0 };
+                if r.chance(0.5) { Frame { o: o2, e1, e2, kind } } else { Frame { o: o2, e1: e2, e2: e1, kind } }
+            }
             0 => {
                 let axes = [[1.0, 0.0, 0.0], [0.0, 1.0, 0.0], [0.0, 0.0, 1.0]];
                 let i = r.below(3) as usize; let j = (i + 1 + r.below(2) as usize) % 3;
